@@ -787,7 +787,7 @@ fn proc_plan_of(case: &Case) -> ProcPlan {
             path: f.path.clone(),
         })
         .collect();
-    ProcPlan { job, faults, keys: "00000000000000000000000000000000".to_string(), clock: None, scratch_tag: String::new(), env: vec![] }
+    ProcPlan { job, faults, keys: "00000000000000000000000000000000".to_string(), clock: None, scratch_tag: String::new(), env: vec![], stdout_full: false }
 }
 
 pub fn check_proc_record(case: &Case, rec: &ProcRecord) -> Vec<Violation> {
